@@ -55,11 +55,12 @@ fn main() {
         let mut stopped = false;
         for k in 0..nout { if stopped { break; }
             lines.push(format!("spawnPut {} {} 2 {} -> * | *", tid, k, news[k as usize])); lines.push(format!("putPrepare {} -> * | *", tid));
-            if bad == Some(k) { lines.push(format!("putAbort {} -> * | *", tid)); if !optional[k as usize] { stopped = true; } }
+            // a member that is absent is skipped when optional; one that is present but damaged ends the restore, optional or not (fix of F-C08-c)
+            if bad == Some(k) { lines.push(format!("putAbort {} -> * | *", tid)); if !optional[k as usize] || bad_kind == 0 { stopped = true; } }
             else { for _ in 0..news[k as usize] { lines.push(format!("putWrite {} -> * | *", tid)); } lines.push(format!("putCommit {} -> * | *", tid)); }
             tid += 1; }
-        let expect_err = bad.map(|k| !optional[k as usize]).unwrap_or(false);
-        if res.is_err() != expect_err { fails.push(fail_json("unexpected_result", &format!("extract_objects returned {} (corrupt member {:?}, optional {:?})", if res.is_err() { "Err" } else { "Ok" }, bad, optional), &lines, "")); }
+        let expect_err = bad.map(|k| !optional[k as usize] || bad_kind == 0).unwrap_or(false);
+        if res.is_err() != expect_err { fails.push(fail_json("unexpected_result", &format!("extract_objects returned {} ({} member {:?}, optional {:?})", if res.is_err() { "Err" } else { "Ok" }, if bad_kind == 0 { "damaged" } else { "absent" }, bad, optional), &lines, "")); }
         if bad.is_some() { failing_cases += 1; }
         // ---- readers read through their old descriptors
         for (t, k, mut f) in fds { let mut b = vec![]; f.read_to_end(&mut b).unwrap(); readers_checked += 1;
